@@ -170,6 +170,7 @@ var seedExpectations = []seedExpect{
 	{"dxil-sample-mask-semantic", "C18", "semantic.siblings", "MapBuiltinToSemantic:missing:BuiltinSampleMask"},
 	{"deref-compound-noload", "C08", "deref.loadrule", "lowerAssign"},
 	{"inline-local-noreinit", "C13", "inline.localreinit", "inlineOneCall"},
+	{"dce-no-remark", "C13", "unmark.remarked", "dce.Run"},
 	{"mem2reg-revoke-in-walk", "C13", "commit.revoke", "walkBlock"},
 	{"mem2reg-loop-unaware", "C13", "promote.loopaware", "promoteBlocks"},
 	{"sroa-store-not-split", "C13", "classify.rewritten", "classifyStmts:StmtStore"},
